@@ -16,6 +16,9 @@ include!(concat!(env!("OUT_DIR"), "/registry.rs"));
 pub struct Env {
     pub proto: Schema,
     pub python: Schema,
+    /// the schema as published (descriptor set of the pinned release, committed under /verif/golden): what
+    /// earlier releases wrote and what other implementations were generated from
+    pub golden: Schema,
     pub proto_files: Vec<String>,
 }
 static ENV: OnceLock<Env> = OnceLock::new();
@@ -54,7 +57,9 @@ for f in sorted(glob.glob(sys.argv[1] + '/*_pb2.py')):
         pyfiles.push(bytes);
     }
     let python = Schema::from_file_protos(&pyfiles)?;
-    Ok(Env { proto, python, proto_files: files })
+    let gpath = crate::runner::verif_dir().join("golden/ommx_v1.descriptor_set.bin");
+    let golden = Schema::from_set_bytes(&std::fs::read(&gpath).map_err(|e| format!("{}: {e}", gpath.display()))?)?;
+    Ok(Env { proto, python, golden, proto_files: files })
 }
 
 pub fn env() -> &'static Env {
@@ -71,6 +76,8 @@ pub fn env() -> &'static Env {
 pub enum Peer {
     Schema,
     Python,
+    /// a peer generated from the published schema (an earlier release, another implementation)
+    Published,
 }
 #[derive(Clone, Debug, Serialize, Deserialize)]
 pub enum Kind {
@@ -374,6 +381,14 @@ fn protoc_io(args: &[&str], files: &[String], input: &[u8]) -> Result<Vec<u8>, S
     Ok(o.stdout)
 }
 
+fn schema_of(e: &Env, p: Peer) -> &Schema {
+    match p {
+        Peer::Schema => &e.proto,
+        Peer::Python => &e.python,
+        Peer::Published => &e.golden,
+    }
+}
+
 #[derive(Clone, Copy)]
 pub struct C07;
 
@@ -400,8 +415,8 @@ impl Prop for C07 {
     }
     fn gen(&self, rng: &mut Rng, _tier: Tier, idx: u64) -> Case {
         let e = env();
-        let peer = if rng.chance(1, 3) { Peer::Python } else { Peer::Schema };
-        let s = if peer == Peer::Python { &e.python } else { &e.proto };
+        let peer = *rng.pick(&[Peer::Schema, Peer::Schema, Peer::Python, Peer::Published]);
+        let s = schema_of(e, peer);
         let types: Vec<&String> = s.messages.keys().collect();
         // every type gets its turn, the big ones more often
         let msg_type = if idx % 3 == 0 { types[(idx / 3) as usize % types.len()].clone() } else { (*rng.pick(&types)).clone() };
@@ -463,6 +478,28 @@ impl Prop for C07 {
                     let diff: Vec<&String> = a.iter().filter(|l| !b.contains(l)).chain(b.iter().filter(|l| !a.contains(l))).take(6).collect();
                     x.violate("C07:static:python-differs-from-proto", format!("the descriptors embedded in the Python bindings differ from the .proto files: {:?}", diff));
                 }
+                // the published schema must still be part of the working tree's schema: a field or enum value that
+                // was renumbered, re-typed, re-labelled or removed (even consistently in all three copies) makes
+                // stored artifacts and other implementations unreadable; additions are fine
+                let (g, w) = (e.golden.fingerprint(), e.proto.fingerprint());
+                let lost: Vec<&String> = g.iter().filter(|l| !l.starts_with("enum ") && !w.contains(l)).take(6).collect();
+                if !lost.is_empty() {
+                    x.violate("C07:static:published-schema-changed", format!("fields of the published schema that the working tree's .proto files no longer define identically: {:?}", lost));
+                }
+                for (n, vals) in &e.golden.enums {
+                    let now = e.proto.enums.get(n).cloned().unwrap_or_default();
+                    for v in vals {
+                        if !now.contains(v) {
+                            x.violate("C07:static:published-schema-changed", format!("enum {n}: published value {:?} is no longer defined identically", v));
+                        }
+                    }
+                }
+                for (c, d) in static_diff(&e.golden, "published schema") {
+                    if c == "field-missing-in-schema" || c == "type-missing-in-schema" {
+                        continue; // additions to the bindings are not a compatibility problem
+                    }
+                    x.violate(&format!("C07:static:published:{c}"), d);
+                }
                 x.api("static", &format!("{} messages {} enums", e.proto.messages.len(), e.proto.enums.len()));
                 x.add("probe.schema_messages", e.proto.messages.len() as u64);
                 x.add("probe.rust_items", RUST_ITEMS.len() as u64);
@@ -501,10 +538,14 @@ impl Prop for C07 {
                 }
             }
             Kind::Exchange { peer, msg_type, bytes_hex, frag } => {
-                let s = if *peer == Peer::Python { &e.python } else { &e.proto };
+                let s = schema_of(e, *peer);
                 let bytes = unhex(bytes_hex);
                 x.nontrivial = bytes.len() > 2;
-                x.count(if *peer == Peer::Python { "probe.exchange.python_peer" } else { "probe.exchange.schema_peer" });
+                x.count(match peer {
+                    Peer::Python => "probe.exchange.python_peer",
+                    Peer::Schema => "probe.exchange.schema_peer",
+                    Peer::Published => "probe.exchange.published_schema_peer",
+                });
                 if frag.len() > 0 {
                     x.count("probe.fragmented_buffer");
                 }
@@ -597,7 +638,7 @@ impl Prop for C07 {
                 out.push(Case { kind: Kind::Exchange { peer: *peer, msg_type: msg_type.clone(), bytes_hex: bytes_hex.clone(), frag: vec![] }, ..c.clone() });
             }
             let e = env();
-            let s = if *peer == Peer::Python { &e.python } else { &e.proto };
+            let s = schema_of(e, *peer);
             if let Ok(mut t) = pbwire::decode(s, msg_type, &unhex(bytes_hex)) {
                 t.normalize(s);
                 let canon = pbwire::encode(s, &t, &EncOpts::canonical());
@@ -642,6 +683,7 @@ impl Prop for C07 {
             "no Python protobuf runtime is installed: the Python side is represented by the descriptors embedded in python/ommx/ommx/v1/*_pb2.py, which determine its wire behaviour".into(),
             "NaN payloads are not generated (values are compared); -0.0 and 0.0 are the same value (prost drops a -0.0 in an implicit-presence field as the default)".into(),
             "field *names* are not compared (they do not appear on the wire)".into(),
+            "'the published schema' is the descriptor set of the pinned release, committed as /verif/golden/ommx_v1.descriptor_set.bin; the working tree may add to it but must keep every published field number, type, label and enum value".into(),
             "group wire types are not generated".into(),
         ]
     }
@@ -652,7 +694,7 @@ impl Prop for C07 {
         vec!["the remote producer/consumer (schema-driven peer codec in sim/src/model/pbwire.rs)", "the Python protobuf runtime (descriptor-driven peer)", "the channel (fragmented buffer)"]
     }
     fn required_probes(&self, _t: Tier) -> Vec<&'static str> {
-        vec!["probe.static_table_compared", "probe.legacy_artifact", "probe.protoc_loop", "probe.exchange.python_peer", "probe.exchange.schema_peer", "probe.fragmented_buffer"]
+        vec!["probe.static_table_compared", "probe.legacy_artifact", "probe.protoc_loop", "probe.exchange.python_peer", "probe.exchange.schema_peer", "probe.exchange.published_schema_peer", "probe.fragmented_buffer"]
     }
 }
 
